@@ -25,9 +25,10 @@ type SrvCfg struct {
 	Comp      []string            `json:"comp"`
 	Enc       []string            `json:"enc"`
 	Schemes   []string            `json:"schemes"`
-	Auth      map[string][]string `json:"auth"`     // "scheme:cred" -> outcome per round (last repeats)
-	Register  string              `json:"register"` // echo | assign | error
-	Mode      string              `json:"mode"`     // direct (ServerChannel.EstablishSession) | server (lime.Server)
+	Auth      map[string][]string `json:"auth"`             // "scheme:cred" -> outcome per round (last repeats)
+	Register  string              `json:"register"`         // echo | assign | error
+	Mode      string              `json:"mode"`             // direct (ServerChannel.EstablishSession) | server (lime.Server)
+	TLSVia    string              `json:"tlsVia,omitempty"` // tcp-tls: how the TLS configuration supplies its certificate: "" static | getcertificate | getconfig
 }
 
 type CSym struct {
@@ -374,7 +375,7 @@ func RunServerScript(c *SrvCase) *SrvObs {
 	var st lime.Transport
 	auth, reg := log.callbacks(&c.Cfg, func() lime.Transport { return st })
 
-	scfg, _ := TLSConfigs()
+	scfg := ServerTLSVia(c.Cfg.TLSVia)
 	var tcpCfg *lime.TCPConfig
 	if c.Cfg.Transport == "tcp-tls" {
 		tcpCfg = &lime.TCPConfig{TLSConfig: scfg}
